@@ -385,25 +385,52 @@ func checkC06(c *Ctx, r *Report) {
 				if n != "(*"+pkTrans+".TransactionStore).Delete" && n != "(*"+pkTrans+".TransactionStore).DeleteByType" {
 					return
 				}
-				ctor := cl.Parent()
-				for ctor.Parent() != nil {
-					ctor = ctor.Parent()
+				host := cl.Parent()
+				for host.Parent() != nil {
+					host = host.Parent()
 				}
+				// the callback's constructor: the function itself when it returns the transaction, otherwise (a shared
+				// set-up method the constructors call) each constructor that calls it - one obligation per constructor
+				ctors := []*ssa.Function{host}
+				if host.Signature.Results().Len() != 1 || structOf(host.Signature.Results().At(0).Type()) == nil {
+					ctors = nil
+					for _, g := range c.repoFuncs(rel) {
+						if g.Signature.Results().Len() != 1 || structOf(g.Signature.Results().At(0).Type()) == nil {
+							continue
+						}
+						calls := false
+						allInstrs(g, func(j ssa.Instruction) {
+							if cj, ok := j.(ssa.CallInstruction); ok && staticCallee(cj.Common()) == host {
+								calls = true
+							}
+						})
+						if calls {
+							ctors = append(ctors, g)
+						}
+					}
+					if len(ctors) == 0 {
+						r.undecided("R2", fnKey(host)+":unconditional-delete", c.instrPos(i), "a completion callback that deletes from the store is built by a function that is neither a transaction constructor nor called by one")
+						return
+					}
+				}
+				for _, ctor := range ctors {
 				r.fn(ctor)
 				// what completes the transaction on its own (a timer: retry budget / time limit) is part of the finding:
 				// an unconditional delete in the callback of a transaction that only ever completes from the receive
 				// loop cannot fire late; once a timer drives it, it can
 				base := "no-timer"
-				allInstrs(ctor, func(j ssa.Instruction) {
-					if cj, ok := j.(ssa.CallInstruction); ok {
-						switch calleeName(cj.Common()) {
-						case pkTrans + ".NewRetryTransaction":
-							base = "retry-timer"
-						case pkTrans + ".NewTimedTransaction":
-							base = "time-limit"
+				for _, cf := range []*ssa.Function{ctor, host} {
+					allInstrs(cf, func(j ssa.Instruction) {
+						if cj, ok := j.(ssa.CallInstruction); ok {
+							switch calleeName(cj.Common()) {
+							case pkTrans + ".NewRetryTransaction":
+								base = "retry-timer"
+							case pkTrans + ".NewTimedTransaction":
+								base = "time-limit"
+							}
 						}
-					}
-				})
+					})
+				}
 				if rt := ctor.Signature.Results(); rt.Len() == 1 {
 					if st := structOf(rt.At(0).Type()); st != nil {
 						for k := 0; k < st.NumFields(); k++ {
@@ -433,12 +460,13 @@ func checkC06(c *Ctx, r *Report) {
 				}
 				if !cond && strings.HasSuffix(n, "DeleteByType") && c.supersedeSafe(rel, ctor) {
 					r.ok("R2", key, c.instrPos(i), "per-type slot: every StoreByType of this transaction first completes the previous occupant (which runs its delete before the new one is stored)")
-					return
+					continue
 				}
 				if cond {
 					r.ok("R2", key, c.instrPos(i), "compare-and-delete")
 				} else {
 					r.bad("R2", key, c.instrPos(i), "the completion callback deletes its key unconditionally: when the exchange was superseded by another one under the same key, the late completion of the old one removes the new one")
+				}
 				}
 			})
 		}
